@@ -186,6 +186,8 @@ type c19H struct {
 	nextID   string
 	labels   int
 	reflectE bool
+	prepared bool
+	exes     map[string]*ggql.Executable
 }
 
 type c19Subscriber struct {
@@ -237,7 +239,7 @@ func (e *c19EvRes) Resolve(field *ggql.Field, args map[string]interface{}) (inte
 const c19SDL = "type Query { i: Int }\ntype Subscription { ev(id: String): Ev }\ntype Ev { name: String n: Int }\n"
 
 func newC19H(reflectEvents bool) *c19H {
-	h := &c19H{reflectE: reflectEvents}
+	h := &c19H{reflectE: reflectEvents, exes: map[string]*ggql.Executable{}}
 	h.root = ggql.NewRoot(&c19RootRes{h})
 	if err := h.root.ParseString(c19SDL); err != nil {
 		panic(core.EngineError{Msg: "C19 schema refused: " + err.Error()})
@@ -262,7 +264,27 @@ func (h *c19H) do(o c19Op) (log []string, cnt int, gotErr bool, pi *core.PanicIn
 			if sel.vars {
 				q = "subscription S($v: Boolean = true) { ev" + arg + " " + sel.text + " }"
 			}
-			res := h.root.ResolveString(q, "", nil)
+			var res map[string]interface{}
+			if h.prepared {
+				// one parsed executable per request text, shared by every subscriber that sends that request
+				exe := h.exes[q]
+				if exe == nil {
+					var perr error
+					if exe, perr = h.root.ParseExecutableString(q); perr != nil {
+						panic(core.EngineError{Msg: "C19 request refused: " + perr.Error()})
+					}
+					h.exes[q] = exe
+				}
+				var rerr error
+				if res, rerr = h.root.ResolveExecutable(exe, "", nil); res == nil {
+					res = map[string]interface{}{}
+				}
+				if rerr != nil {
+					res["errors"] = ggql.FormErrorsResult(rerr)
+				}
+			} else {
+				res = h.root.ResolveString(q, "", nil)
+			}
 			if res["errors"] != nil {
 				gotErr = true
 				h.log = append(h.log, fmt.Sprintf("subscribe-error:%v", res["errors"]))
@@ -305,8 +327,9 @@ func c19Ops(sels, ids, kinds []int) []c19Op {
 }
 
 // c19Step replays path on a fresh root (checking nothing), then applies op and compares with the model.
-func c19Step(c *core.Ctx, path []c19Op, op c19Op, reflectEvents bool, checkAll bool) (*refReg, bool) {
+func c19Step(c *core.Ctx, path []c19Op, op c19Op, reflectEvents bool, checkAll bool, prepared bool) (*refReg, bool) {
 	h := newC19H(reflectEvents)
+	h.prepared = prepared
 	model := &refReg{}
 	steps := append(append([]c19Op{}, path...), op)
 	for si, o := range steps {
@@ -321,9 +344,12 @@ func c19Step(c *core.Ctx, path []c19Op, op c19Op, reflectEvents bool, checkAll b
 			for i, x := range steps[:si+1] {
 				hs[i] = x.String()
 			}
-			return map[string]interface{}{"history": hs, "events_carrier": map[bool]string{false: "Resolver", true: "reflection struct"}[reflectEvents], "diff": msg, "expected_log": wantLog, "observed_log": log, "expected_count": wantCnt, "observed_count": cnt}
+			return map[string]interface{}{"history": hs, "events_carrier": map[bool]string{false: "Resolver", true: "reflection struct"}[reflectEvents], "subscription_requests": map[bool]string{false: "parsed afresh", true: "one parsed executable per request text"}[prepared], "diff": msg, "expected_log": wantLog, "observed_log": log, "expected_count": wantCnt, "observed_count": cnt}
 		}
 		attrs := map[string]string{"op": o.Kind}
+		if prepared {
+			attrs["requests"] = "prepared"
+		}
 		if o.Kind == "subscribe" || len(model.subs) > 0 {
 			usesVars := false
 			for _, s := range model.subs {
@@ -389,15 +415,18 @@ func runC19(c *core.Ctx) {
 		maxLive           int
 		sels, ids, kinds  []int
 		reflect           bool
+		prepared          bool
 	}
 	cfgs := []cfg{
-		{"full alphabet, <= 2 live", 2, []int{0, 1, 2, 3}, []int{0, 1, 2}, []int{0, 1, 2, 3}, false},
-		{"reduced alphabet, <= 3 live, reflection events", 3, []int{0, 2}, []int{0, 2}, []int{0, 1, 2}, true},
+		{"full alphabet, <= 2 live", 2, []int{0, 1, 2, 3}, []int{0, 1, 2}, []int{0, 1, 2, 3}, false, false},
+		{"reduced alphabet, <= 3 live, reflection events", 3, []int{0, 2}, []int{0, 2}, []int{0, 1, 2}, true, false},
+		{"reduced alphabet, <= 3 live, prepared requests", 3, []int{0, 2}, []int{0, 2}, []int{0, 1, 2}, false, true},
 	}
 	if c.Thorough() {
 		cfgs = []cfg{
-			{"full alphabet, <= 3 live", 3, []int{0, 1, 2, 3}, []int{0, 1, 2}, []int{0, 1, 2, 3}, false},
-			{"reduced alphabet, <= 4 live, reflection events", 4, []int{0, 2}, []int{0, 2}, []int{0, 1, 2}, true},
+			{"full alphabet, <= 3 live", 3, []int{0, 1, 2, 3}, []int{0, 1, 2}, []int{0, 1, 2, 3}, false, false},
+			{"reduced alphabet, <= 4 live, reflection events", 4, []int{0, 2}, []int{0, 2}, []int{0, 1, 2}, true, false},
+			{"reduced alphabet, <= 4 live, prepared requests", 4, []int{0, 2}, []int{0, 2}, []int{0, 1, 2}, false, true},
 		}
 	}
 	completed := true
@@ -431,7 +460,7 @@ func runC19(c *core.Ctx) {
 						if len(wantLog) > 0 {
 							c.Nontrivial()
 						}
-						if _, ok := c19Step(c, nd.path, op, cf.reflect, false); ok {
+						if _, ok := c19Step(c, nd.path, op, cf.reflect, false, cf.prepared); ok {
 							c.Outcome("transition-ok")
 						}
 						c.Sample(func() interface{} { return map[string]interface{}{"state": nd.reg.key(), "op": op.String(), "config": cf.name} })
@@ -472,7 +501,7 @@ func runC19(c *core.Ctx) {
 					return
 				}
 				c.Nontrivial()
-				if _, ok := c19Step(c, seq[:len(seq)-1], seq[len(seq)-1], idx%2 == 0, true); ok {
+				if _, ok := c19Step(c, seq[:len(seq)-1], seq[len(seq)-1], idx%2 == 0, true, idx%4 >= 2); ok {
 					c.Outcome("history-ok")
 				}
 			}
